@@ -35,7 +35,8 @@ def generate(seed: int, tier: str = "quick") -> Dict[str, Any]:
         "fault_class": rc.choice(["none", "none", "none", "faults", "faults"]),
         "runner_mix": rc.choice(["I", "C", "C", "mixed", "mixed", "mixed"]),
         "host_share": rc.choice([0.0, 0.2, 0.5]),
-        "pool": rc.choice([0, 0, 4, 8]),  # >0: expressions come from a small per-run pool (repeats)
+        "pool": rc.choice([0, 2, 4, 8]),  # >0: expressions come from a small per-run pool (repeats)
+        "reuse": rc.choice([0.0, 0.3, 0.6]),
         # override focus: programs that call size() with and without a host function named size
         "size_focus": rc.random() < 0.2,
         "deep_share": rc.choice([0.0, 0.0, 0.0, 0.2]),
@@ -80,8 +81,10 @@ def generate(seed: int, tier: str = "quick") -> Dict[str, Any]:
                 if "boom" not in fault_kinds and "hf_boom" in host and rw.random() < 0.7:
                     host.remove("hf_boom")
             decls = gen.decl_map(e["cfg"]["decls"])
-            pool_key = f"{e['cfg']['decls']}|{','.join(host)}"
-            if cfg["pool"] and len(text_pool.get(pool_key, [])) >= cfg["pool"]:
+            pool_key = ",".join(host)
+            if cfg["pool"] and text_pool.get(pool_key) and (
+                    len(text_pool[pool_key]) >= cfg["pool"] or rw.random() < cfg["reuse"]):
+                # the same source text again, possibly in another environment / runner class
                 text = rw.choice(text_pool[pool_key])
             else:
                 text = gen.gen_expr(rw, decls, salt=rw.randrange(0, 3),
